@@ -25,6 +25,18 @@ fn rng(r: TextRange) -> String {
     format!("{}-{}", u32::from(r.start()), u32::from(r.end()))
 }
 
+/// a new host holding the current workspace (the one defined by ws-begin … ws-end and `change`)
+pub fn fresh_host() -> Option<AnalysisHost> {
+    WS.with(|w| {
+        let mut w = w.borrow_mut();
+        let keep = w.host.take();
+        build(&mut w);
+        let h = w.host.take();
+        w.host = keep;
+        h
+    })
+}
+
 fn build(ws: &mut Ws) {
     let mut change = Change::default();
     for (i, (_, text)) in ws.files.iter().enumerate() {
